@@ -106,11 +106,12 @@ instance (l : Line) : Decidable (CleanLine l) := by
   cases l.bl <;> infer_instance
 
 /-- `a` stands left of `b` in the same row: boxes horizontally disjoint, vertically
-    overlapping, baselines within the 10-pixel tolerance of `is_next_to` -/
+    overlapping, baselines within the tolerance of `is_next_to` (`rowTol`: the literal of the source,
+    10 pixels at the time of writing) -/
 def SideBySide (a b : Line) : Prop :=
   a.box.right < b.box.left ∧ max a.box.top b.box.top ≤ min a.box.bottom b.box.bottom ∧
   match a.bl, b.bl with
-  | some x, some y => x.top ≤ y.bottom + 10 ∧ y.top ≤ x.bottom + 10
+  | some x, some y => x.top ≤ y.bottom + rowTol ∧ y.top ≤ x.bottom + rowTol
   | _, _ => False
 
 instance (a b : Line) : Decidable (SideBySide a b) := by
@@ -184,15 +185,21 @@ theorem sideBySide_rel {a b : Line} (ha : CleanLine a) (hb : CleanLine b) (h : S
   have v1 : vOverlap a b ≠ 0 := by
     simp only [vOverlap, overlapLen]; split <;> omega
   have v2 : vOverlap b a ≠ 0 := vOverlap_comm a b ▸ v1
-  refine ⟨by simp [isBelow, h0a], by simp [isBelow, h0b], ?_, ?_⟩
-  · simp only [isNextTo, v1, h0a, ex, ey, if_false]
-    have c1 : ¬ (x.top > y.bottom + 10) := by omega
-    have c2 : ¬ (x.bottom < y.top - 10) := by omega
-    simp [c1, c2]
-  · simp only [isNextTo, v2, h0b, ex, ey, if_false]
-    have c1 : ¬ (y.top > x.bottom + 10) := by omega
-    have c2 : ¬ (y.bottom < x.top - 10) := by omega
-    simp [c1, c2]
+  refine ⟨by simp [isBelow, h0a], by simp [isBelow, h0b], ?_⟩
+  -- the facts about the regenerated literals that are used: one tolerance, a non-negative limit
+  have hB : Generated.C15.nextToTolBottom = Generated.C15.nextToTolTop := consts_next_to_tolerances_equal.symm
+  have hM : ¬ ((0 : Int) > Generated.C15.nextToMaxHOverlap) := by
+    have := consts_next_to_overlap_limit_nonneg; omega
+  simp only [rowTol] at ht
+  refine ⟨?_, ?_⟩
+  · have c1 : ¬ (x.top > y.bottom + Generated.C15.nextToTolTop) := by omega
+    have c2 : ¬ (x.bottom < y.top - Generated.C15.nextToTolTop) := by omega
+    simp only [isNextTo, v1, h0a, ex, ey, if_false, hB]
+    rw [if_neg hM, if_neg c1, if_neg c2]
+  · have c1 : ¬ (y.top > x.bottom + Generated.C15.nextToTolTop) := by omega
+    have c2 : ¬ (y.bottom < x.top - Generated.C15.nextToTolTop) := by omega
+    simp only [isNextTo, v2, h0b, ex, ey, if_false, hB]
+    rw [if_neg hM, if_neg c1, if_neg c2]
 
 /-- a line of a lower row is never next to a line of a higher row -/
 theorem above_not_nextTo {a b : Line} (h : Above a b) : isNextTo b a = .ok false ∧ isNextTo a b = .ok false := by
